@@ -46,7 +46,7 @@ RULE = (
 )
 ASSUMPTIONS = [
     "min_write_sz >= 1; max_part >= min_part + (#partitions * writes_per_chunk) (the id layout mpu_write uses); "
-    "max_write_sz is not part of the statement and is set huge",
+    "max_write_sz: huge, or 1x/2x/5x the minimum part size (the code does not cap parts at it and the statement does not ask it to: only 'never fails or loses data' is demanded)",
     "every partition holds >= 1 chunk (the quantifier of the property); chunk sizes 0..~6*min_write_sz",
     "L1 reproduces mpu_write's id layout with the real MPUChunk.gen_bunch (first id min_part+1, lhs_keep=min_write_sz "
     "with a writer, 0 without; mark_final iff no footer, last bag only)",
@@ -86,6 +86,9 @@ class Layout:
         self.min_part = int(case["min_part"])
         self.slack = int(case["slack"])
         self.has_writer = bool(case["writer"])
+        # "writer size limits": the writer's advertised maximum per call, as a multiple of its minimum (None = huge).
+        # The statement promises nothing about the maximum, only that no limit makes the write fail or lose data.
+        self.maxw = None if not case.get("maxw") else int(case["maxw"]) * self.m
         self.user_kw = {"tag": 7, "other": "x"} if case.get("kw") else None
         bags = case["bags"]
         ba = bool(case.get("ba"))
@@ -131,7 +134,8 @@ class Layout:
 class RecWriter:
     """Recording PartsWriter.  Never raises; verdicts are made afterwards."""
 
-    def __init__(self, min_write_sz: int, min_part: int, max_part: int):
+    def __init__(self, min_write_sz: int, min_part: int, max_part: int, max_write_sz: Optional[int] = None):
+        self._maxw = max_write_sz
         self._m = min_write_sz
         self._lo = min_part
         self._hi = max_part
@@ -157,7 +161,7 @@ class RecWriter:
 
     @property
     def max_write_sz(self) -> int:
-        return 1 << 40
+        return (1 << 40) if self._maxw is None else self._maxw
 
     @property
     def min_part(self) -> int:
@@ -168,7 +172,7 @@ class RecWriter:
         return self._hi
 
     def __dask_tokenize__(self):
-        return ("c06.RecWriter", self._m, self._lo, self._hi)
+        return ("c06.RecWriter", self._m, self._lo, self._hi, self._maxw)
 
 
 class RecCallback:
@@ -271,7 +275,7 @@ def drive_l1(L: Layout, sched: List[int]):
     from odc.geo.cog import _mpu as M
 
     max_part = L.max_part()
-    write = RecWriter(L.m, L.min_part, max_part) if L.has_writer else None
+    write = RecWriter(L.m, L.min_part, max_part, L.maxw) if L.has_writer else None
     hdr, ftr = _mk_callbacks(L)
     # --- id layout of mpu_write
     min_part = write.min_part if write is not None else 1
@@ -512,7 +516,7 @@ def o_l2(case, T):
                 raise HarnessError("bag has %d partitions, wanted %d" % (b.npartitions, len(parts)))
         nparts = sum(b.npartitions for b in bags)
         max_part = L.max_part(nparts)
-        write = RecWriter(L.m, L.min_part, max_part) if L.has_writer else None
+        write = RecWriter(L.m, L.min_part, max_part, L.maxw) if L.has_writer else None
         hdr, ftr = _mk_callbacks(L)
         chunks = bags[0] if (len(bags) == 1 and not case.get("as_list")) else bags
         dd = mpu_write(
@@ -609,6 +613,7 @@ def s_case(draw, flags=(0, 0, 0), writer=True, l2=False):
     sched = draw(st.lists(st.integers(0, 7), min_size=k, max_size=k))
     case = {"m": m, "spill": spill, "wpc": wpc, "hdr": hdr, "ftr": ftr, "min_part": min_part, "slack": slack,
             "writer": bool(writer), "kw": kw, "ba": draw(st.booleans()), "bags": bags, "sched": sched}
+    case["maxw"] = draw(st.sampled_from([None, None, None, 1, 2, 5]))
     if l2:
         modes = [draw(st.sampled_from(["cut", "cut", "seq"])) for _ in bags]
         if writer and ftr is None and not final_multi:
